@@ -592,12 +592,10 @@ def run_conv_case(ctx, c, model):
     elif o[0] == "D":
         import scipy.stats as sps
         from pyuncertainnumber.pba.params import Params
-        fam = {"gaussian": lambda a: sps.norm(*a), "uniform": lambda a: sps.uniform(a[0], a[1] - a[0]),
-               "exponential": None, "gamma": None, "beta": lambda a: sps.beta(*a)}[o[1]]
         if l != r or any(a > b for a, b in zip(l, l[1:])):
             bad = "precise distribution does not give equal, sorted bounds"
-        elif fam is not None:
-            ref = fam(o[2]).ppf(Params.p_values)
+        elif o[1] == "gaussian":
+            ref = sps.norm(*o[2]).ppf(Params.p_values)
             if not np.allclose(ref, np.array(l), rtol=1e-9, atol=1e-12):
                 bad = "bounds are not the quantiles of the distribution on the probability grid"
     elif o[0] == "S":
